@@ -130,3 +130,11 @@ Fixpoint list_facts (dl list_name : str) (idx : nat) (cs : list choice) : list f
 (* every item of a list that requires itext carries <itextId>list-idx</itextId> *)
 Definition emitted_item_ids (list_name : str) (cs : list choice) : list str :=
   if requires_itext cs then map (choice_id list_name) (seq 0 (length cs)) else [].
+
+(* ---- _add_empty_translations as repaired by fix 57bc304: the ids of all choices of lists that use itext are padded too ---- *)
+(* paths.setdefault(id, {"long": None}) for every id of `extra`, in order *)
+Definition add_ids (extra : list str) (ps : list (str * list str)) : list (str * list str) :=
+  fold_left (fun a id => match fget id a with Some _ => a | None => a ++ [(id, [s_long])] end) extra ps.
+Definition pad_with (extra : list str) (s : store) : store :=
+  let ps := add_ids extra (all_paths_forms s) in map (fun p => (fst p, pad_lang ps (snd p))) s.
+
